@@ -69,6 +69,18 @@ def initial_text(case, kind):
 
 
 def evaluate(case, engine, acc=None):
+    try:
+        return _evaluate(case, engine, acc)
+    except (core.RunTimeout, core.BudgetExceeded) as e:
+        # a session that never ends because it keeps asking what it was already told is this property's business
+        mo = getattr(e, 'monitor', None)
+        again = [m_ for c, m_ in (mo.violations if mo else []) if c.startswith('H3')]
+        if again:
+            return [F(ID, 'C20.reask', 'asked-again-in-session', f'session cut off ({e}): {again[0]}')]
+        raise
+
+
+def _evaluate(case, engine, acc=None):
     kind = 'synth' if engine.startswith('synth') else 'shipped'
     world = synth_world(case) if kind == 'synth' else shipped_world(case)
     init = initial_text(case, kind)
